@@ -493,17 +493,23 @@ func (g *gen) candidate() string {
 		// several short-lived background commands with drawn exit statuses and demands, then the unnamed wait:
 		// the first command that violates its demand decides, wherever it stands in the list
 		var ls []string
-		for i, n := 0, rapid.IntRange(2, 4).Draw(t, "nmany"); i < n; i++ {
+		var manyNames []string
+		for i, n := 0, rapid.IntRange(2, 5).Draw(t, "nmany"); i < n; i++ {
 			g.nbg++
 			spec := "&"
 			if rapid.IntRange(0, 2).Draw(t, "manynamed") == 1 {
 				spec = fmt.Sprintf("&y%d&", g.nbg)
+				manyNames = append(manyNames, fmt.Sprintf("y%d", g.nbg))
 			}
 			ng := ""
 			if rapid.IntRange(0, 2).Draw(t, "manyneg") == 1 {
 				ng = "! "
 			}
 			ls = append(ls, fmt.Sprintf("%sexec vmain emit -o out%d\\n -x %s %s", ng, g.nbg, rapid.SampledFrom([]string{"0", "0", "1", "2"}).Draw(t, "manycode"), spec))
+		}
+		if len(manyNames) > 0 && rapid.Bool().Draw(t, "manywaitone") {
+			// first wait for one of the named ones: the others stay on the list for the unnamed wait
+			ls = append(ls, "wait "+rapid.SampledFrom(manyNames).Draw(t, "manywaitname"))
 		}
 		return strings.Join(ls, "\n") + "\n" + "wait"
 	case "phaseskip":
